@@ -21,6 +21,9 @@ pub fn alphabets() -> Vec<Alphabet> {
         Alphabet { id: "A-line", symbols: vec!["\r", "\n", "\t", " ", "pragma", "@a", "//", "/*", "*/", "x", ";", "é", "\"", "\u{c}"] },
         // upper-case spellings and literal suffixes
         Alphabet { id: "A-case", symbols: vec!["0", "1", "B", "X", "O", "b", "x", "E", "_", "F", "f", "g", ".", "im"] },
+        // unusual Unicode: byte order mark, no-break space, zero-width space, line separator,
+        // next line, micro sign and Greek mu, pi, combining accent
+        Alphabet { id: "A-uni", symbols: vec!["\u{feff}", "\u{a0}", "\u{200b}", "\u{2028}", "\u{85}", "µ", "μ", "π", "é", "\u{301}", "x", " ", "1", ";"] },
         Alphabet { id: "A-punct", symbols: vec!["<", ">", "=", "!", "&", "|", "+", "-", "*", ".", ":", "/", " ", "a"] },
     ]
 }
